@@ -714,6 +714,7 @@ pub fn check_decode(code: &[u8], cfg: &Cfg, cx: &mut Ctx) -> R {
     let mut pos = 0usize;
     let mut iter = gimli::Expression(EndianSlice::new(code, endian)).operations(enc);
     let whole = gimli::Expression(EndianSlice::new(code, endian));
+    crate::std_iter_agrees!(gimli::Expression(EndianSlice::new(code, endian)).operations(enc), |o: &Operation<Rdr>| canon_gimli(o), "c07/decode/std-iterator");
     while pos < code.len() {
         let m = decode_op(code, pos, cfg);
         // Operation::parse at this position
@@ -1075,12 +1076,43 @@ impl Prop for C07 {
                 // an unsigned constant added to a value of whatever type is on top
                 prog.push(MOp::PlusUconst(ch.pick(&[0u64, 1, 3, 127, 128, 255, 256, 0xffff_ffff, 1 << 32, u64::MAX])));
             }
+            // values at the ends of the type's range (top bit set, all ones, largest positive)
+            if ch.chance(100) && !ty.is_float() {
+                let bits = ty.bits(a);
+                let top = 1u64 << (bits - 1);
+                let k = ch.below(2);
+                values[k] = MV::int(ty, ch.pick(&[top, top | 1, u64::MAX, top - 1, top | (top >> 1)]), a);
+            }
+            // a conversion (or a bit-for-bit reinterpretation) to any other type at the end, now and then of an
+            // operand as it came from the register
+            let to_ty = ALL_TYS[ch.below(ALL_TYS.len())];
+            let mut conv = false;
+            if ch.chance(90) {
+                conv = true;
+                if ch.chance(100) {
+                    prog.truncate(1);
+                }
+                prog.push(if ch.chance(200) { MOp::Convert(0x30, ch.chance(40)) } else { MOp::Reinterpret(0x30, ch.chance(40)) });
+            }
             if ch.chance(128) {
                 prog.push(MOp::StackValue);
             }
             let code = encode(&prog, &cfg);
             let case = ExprCase { cfg, code, object_address: None, initial_value: None };
             let mut src = AnswerSource { values: values.clone(), u64s: vec![1, 2, 3], codes: vec![Vec::new()], types: vec![ty], i: 0 };
+            if conv {
+                cx.label("typed-arithmetic-mode: conversion at the end");
+                cx.sample_with(|| format!("{} typed program {:?} over register values {:?}, type at 0x30 = {:?}", cfg.describe(), prog, values, to_ty));
+                check_decode(&case.code, &cfg, cx)?;
+                let mut f = |r: &Req| match r {
+                    Req::BaseType(0x30) => {
+                        src.i += 1;
+                        Answer::Type(to_ty)
+                    }
+                    _ => src.answer(r),
+                };
+                return check_eval(&case, &mut f, cx, true);
+            }
             cx.sample_with(|| format!("{} typed program {:?} over register values {:?}", cfg.describe(), prog, values));
             check_decode(&case.code, &cfg, cx)?;
             let mut f = |r: &Req| src.answer(r);
